@@ -10,6 +10,7 @@ is set: every call site is of the form ``if _verif.ACTIVE and ...``.
 - ``central_hook(name)``: replaces the scheduler event-loop thread
 - ``ipcom_hook()``: replaces the file system watcher
 - ``tap``: generic observation callback ``tap(kind, payload)``
+- ``pause(point)``: rendez-vous with the harness at a named point (multi-process interleavings)
 - ``emit(event, **fields)``: appends one JSON line to the file named by
   ``XPM_VERIF_TRACE`` (O_APPEND, one write per event)
 """
@@ -49,6 +50,24 @@ def emit(event: str, **fields):
         record = {"e": event, "pid": os.getpid(), "seq": _seq}
         record.update(fields)
         os.write(_fd, (json.dumps(record) + "\n").encode("utf-8"))
+
+
+def pause(point: str):
+    """Deterministic interleavings of several processes: when the directory named by
+    ``XPM_VERIF_PAUSE`` contains a file ``<point>``, announce that the point is reached
+    (``<point>.<pid>.reached``) and wait for ``<point>.<pid>.go``"""
+    if not ACTIVE:
+        return
+    base = os.environ.get("XPM_VERIF_PAUSE")
+    if not base or not os.path.exists(os.path.join(base, point)):
+        return
+    import time
+
+    mine = os.path.join(base, f"{point}.{os.getpid()}")
+    with open(mine + ".reached", "w"):
+        pass
+    while not os.path.exists(mine + ".go"):
+        time.sleep(0.002)
 
 
 def _reset_after_fork():
